@@ -524,6 +524,11 @@ cdef class Genotype:
 			del self.thisptr
 		self.thisptr = new cpp.Genotype(alleles)
 
+	def __reduce__(self):
+		# __cinit__ needs an argument, so the default reconstruction (cls.__new__(cls)) fails:
+		# create an empty genotype and restore the state with __setstate__
+		return (Genotype, ([],), self.__getstate__())
+
 	def __deepcopy__(self, memo):
 		return Genotype.__new__(Genotype, self.as_vector())
 
